@@ -391,6 +391,19 @@ where
         &mut self,
         cx: &mut Context<'_>,
     ) -> Poll<ConnectionHandlerEvent<Protocol<TCodec::Protocol>, (), Self::ToBehaviour>> {
+        // Report an inbound request that a worker has already handed over before polling the
+        // workers again: otherwise a worker that times out while its request still sits in the
+        // channel would have its `InboundTimeout` reported (and ignored by the behaviour, which
+        // does not know the request yet) before the `Request` itself, and the request would then
+        // be delivered without ever being resolved.
+        if let Poll::Ready(Some((id, rq, rs_sender))) = self.inbound_receiver.poll_next_unpin(cx) {
+            return Poll::Ready(ConnectionHandlerEvent::NotifyBehaviour(Event::Request {
+                request_id: id,
+                request: rq,
+                sender: rs_sender,
+            }));
+        }
+
         match self.worker_streams.poll_unpin(cx) {
             Poll::Ready((_, Ok(Ok(event)))) => {
                 return Poll::Ready(ConnectionHandlerEvent::NotifyBehaviour(event));
